@@ -504,6 +504,9 @@ func (e *env) rpmOracle(name string, p pkg, a advisory, rc *rhelCase, prank, fra
 		rel := map[bool]string{true: "strictly below the fix", false: "not below the fix"}[below]
 		if mode == "nofix" {
 			rel = map[bool]string{true: "not above the last affected version", false: "above the last affected version"}[below]
+			if name == "aws" || name == "rhel" {
+				rel = "affected by an advisory without fix (unfixed)"
+			}
 		}
 		e.r.Fail("", fmt.Sprintf("%s: Vulnerable(pkg=%q arch=%q; fixed=%q advisory-version=%q arch=%q op=%d)=%s, by construction the package is %s and the architecture test is %v",
 			name, p.version, p.arch, a.fixed, a.pkgVersion, a.pkgArch, uint(a.op), got, rel, archExpected(a.op, p.arch, a.pkgArch)))
